@@ -26,6 +26,13 @@ static std::string judge_fwd(int s, int64_t day, bool &accepted) {
 	if (h.H != SUT_ALL_DAY) return pre + ": time part altered";
 	sut_inst_t back = sut_rescale(h, s, 0);
 	if (back.y != gi.y || back.m != gi.m || back.d != gi.d) return pre + " but converts back to " + dtxt(back);
+	// an instant that also carries a time zone converts to the same date (both directions), keeping the zone
+	if (day % 5 == 0) { static const char *ZN[] = {"Europe/Berlin", "Asia/Tokyo", "America/New_York"}; const char *zn = ZN[(size_t)(((day / 5) % 3 + 3) % 3)];
+		sut_inst_t hz = sut_rescale_zoned(gi, 0, s, zn);
+		if (hz.y == -2) return pre + ": the time zone " + zn + " attached to the instant was lost by the conversion";
+		if (hz.y != h.y || hz.m != h.m || hz.d != h.d) return pre + " but the same day carrying TZID=" + zn + " maps to " + dtxt(hz);
+		sut_inst_t bz = sut_rescale_zoned(h, s, 0, zn);
+		if (bz.y != gi.y || bz.m != gi.m || bz.d != gi.d) return pre + " but with TZID=" + std::string(zn) + " it converts back to " + dtxt(bz); }
 	int wd = sut_scale_wday(s, h);
 	if (wd != (int)civil::weekday(day)) return pre + ": weekday reported " + std::to_string(wd) + ", Gregorian weekday is " + std::to_string(civil::weekday(day));
 	// successor
